@@ -3,6 +3,7 @@
   Ops (all `op cfg a s`, `a` = hex pattern, `s` = decimal u32):
     overflowing_shl overflowing_shr checked_shl checked_shr wrapping_shl wrapping_shr
     unbounded_shl unbounded_shr rotate_left rotate_right
+    strict_shl strict_shr   (value, or `P` when `s ≥ BITS`; same in both build modes)
   and `shl cfg dbg a s`, `shr cfg dbg a s` with `dbg` ∈ {`dbg`,`1`} (debug_assertions) or
   {`rel`,`0`} (release); answer `P` on panic.
   Where the property leaves the value open (wrapping/overflowing shift with `s ≥ BITS` at a width that
@@ -34,6 +35,8 @@ def handle : Handler := fun c op args =>
   let mUbShr (a s) := if sg then II.unboundedShr w a s else UI.unboundedShr w a s
   let mRotl (a s) := if sg then II.rotateLeft w a s else UI.rotateLeft w a s
   let mRotr (a s) := if sg then II.rotateRight w a s else UI.rotateRight w a s
+  let mStShl (a s) := if sg then II.strictShl w a s else UI.strictShl w a s
+  let mStShr (a s) := if sg then II.strictShr w a s else UI.strictShr w a s
   let mShl (d a s) := if sg then II.shl d w a s else UI.shl d w a s
   let mShr (d a s) := if sg then II.shr d w a s else UI.shr d w a s
   -- spec: exact value of the operand, and the value of the shifted result (if determined)
@@ -75,6 +78,14 @@ def handle : Handler := fun c op args =>
   | "rotate_right", [a, s] => do
     let a ← parseVal c a; let s ← parseAmt s
     some (showVal c (mRotr a s), toHex (Spec.Shift.rotr bits (U w a) s))
+  | "strict_shl", [a, s] => do
+    let a ← parseVal c a; let s ← parseAmt s
+    some (showOut (showVal c) (mStShl a s),
+      if ovf s then "P" else toHex (Spec.Shift.shlVal bits (valOf c a) s))
+  | "strict_shr", [a, s] => do
+    let a ← parseVal c a; let s ← parseAmt s
+    some (showOut (showVal c) (mStShr a s),
+      if ovf s then "P" else toHex (Spec.Shift.shrVal bits (valOf c a) s))
   | "shl", [d, a, s] => do
     let d ← parseDbg d; let a ← parseVal c a; let s ← parseAmt s
     some (showOut (showVal c) (mShl d a s),
